@@ -83,3 +83,65 @@ Definition unflatten (ts : list token) : option tnode :=
   | Some (n, []) => Some n
   | _ => None
   end.
+
+(* ---------- the specification context machine --------------------------- *)
+(* What a consumer of a token stream must track to know whether the tokens so
+   far form one complete value: the stack of open containers, and for maps
+   whether a key or a value is due.  [key_ok] says which scalars may be keys. *)
+
+Inductive frame := FArr | FMapKey | FMapVal.
+Definition ctx := list frame.            (* head = innermost open container; [] = nothing opened yet *)
+
+Inductive cres := CCont (c : ctx) | CDone | CErr.
+
+Definition after_value_ctx (c : ctx) : cres :=
+  match c with
+  | [] => CDone
+  | FMapVal :: r => CCont (FMapKey :: r)
+  | f :: r => CCont (f :: r)
+  end.
+
+Definition after_close (r : ctx) : cres :=
+  match r with
+  | [] => CDone
+  | FMapVal :: r' => CCont (FMapKey :: r')
+  | _ => CCont r
+  end.
+
+Definition is_scalar (v : tokv) : bool :=
+  match v with MapOpen _ | MapClose | ArrOpen _ | ArrClose => false | _ => true end.
+
+Definition ctx_step (key_ok : tokv -> bool) (c : ctx) (v : tokv) : cres :=
+  match c with
+  | FMapKey :: r =>
+      match v with
+      | MapClose => after_close r
+      | MapOpen _ | ArrOpen _ | ArrClose => CErr
+      | _ => if key_ok v then CCont (FMapVal :: r) else CErr
+      end
+  | _ =>   (* a value is due: top level, array element, or map value *)
+      match v with
+      | MapOpen _ => CCont (FMapKey :: c)
+      | ArrOpen _ => CCont (FArr :: c)
+      | ArrClose => match c with FArr :: r => after_close r | _ => CErr end
+      | MapClose => CErr
+      | _ => after_value_ctx c
+      end
+  end.
+
+(* run: index (1-based count of tokens used) and outcome at the first done/error *)
+Inductive crun := CRDone (used : nat) | CRErr (used : nat) | CRStarved (c : ctx).
+
+Fixpoint ctx_run (key_ok : tokv -> bool) (c : ctx) (ts : list token) (n : nat) : crun :=
+  match ts with
+  | [] => CRStarved c
+  | t :: rest =>
+      match ctx_step key_ok c (tv t) with
+      | CCont c' => ctx_run key_ok c' rest (S n)
+      | CDone => CRDone (S n)
+      | CErr => CRErr (S n)
+      end
+  end.
+
+Definition key_cbor (v : tokv) : bool := match v with Str _ | Int _ | Uint _ => true | _ => false end.
+Definition key_json (v : tokv) : bool := match v with Str _ => true | _ => false end.
